@@ -147,6 +147,9 @@ def case : P String := do
       (match r.head? with
         | none => "edge none"
         | some e => "edge " ++ showRes (fun l => nums (numLine l)) (createEdgeGeometry g e)),
+      (match r.find? (fun e => (g e.edge).isSome) with
+        | none => "feature none"
+        | some e => "feature ok " ++ nums (numFeat (createGeojsonFeature e ((g e.edge).getD [])))),
       (match t.values.head? with
         | none => "branch none"
         | some b => "branch " ++ showRes (fun l => nums (numLine l)) (createBranchGeometry g b))]
